@@ -40,10 +40,25 @@ class Children:
                                  cwd=os.path.join(self.tmp, f"child{k}"), text=True, bufsize=1)
             self.procs.append((hs, p))
 
+    @staticmethod
+    def decoy(sc, k):
+        """a related but different simulation (other machine speeds, other delay seed / probability) run in child k
+        before the real one, so that the interpreters have different histories; results must not depend on it"""
+        d = json.loads(json.dumps(sc))
+        for m in d['machines']:
+            m['flops'] += k
+            m['bw'] += k
+        if d.get('delay_model'):
+            d['delay_model']['seed'] += k
+            d['delay_model']['prob'] = 1.0
+            if d['delay_model']['degree'] == 'NONE':
+                d['delay_model']['degree'] = 'HIGH'
+        return d
+
     def run(self, sc):
-        line = json.dumps(sc) + '\n'
-        for _, p in self.procs:
-            p.stdin.write(line)
+        for k, (_, p) in enumerate(self.procs):
+            msg = {'sc': sc, 'decoys': [self.decoy(sc, k)] if k else []}
+            p.stdin.write(json.dumps(msg) + '\n')
             p.stdin.flush()
         out = []
         for hs, p in self.procs:
@@ -75,6 +90,7 @@ class C10:
     level_text = ("exploration: digests of the per-timestep table (minus *-algtime columns), the task table and the event log must be "
                   "equal between the two in-process runs and between all K interpreters")
     assumptions = ["children run through the same pass-through tracing harness as every other check (step budget, ready-task counts)",
+                   "child k>0 first runs a related decoy simulation (other machine speeds, other delay seed) so that interpreters differ in history as well as in hash seed",
                    "each child runs in its own directory with the same relative config path, so the 'config' column is comparable"]
     _children = None
 
@@ -109,7 +125,7 @@ class C10:
             ref_hs, ref = res[0]
             for hs, r in res[1:]:
                 if r['first'] != ref['first']:
-                    out.append(O.V('C10', 'differs_across_hashseeds', f"PYTHONHASHSEED={hs} vs {ref_hs}: outputs differ in "
+                    out.append(O.V('C10', 'differs_across_interpreters', f"interpreter with PYTHONHASHSEED={hs} (and a decoy run before) vs PYTHONHASHSEED={ref_hs}: outputs differ in "
                                    f"{diff_keys(r['first'], ref['first'])} (alg {sc['alg']['kind']})"))
             st0 = ref['first']['status']
             state.count(f"status={st0}")
@@ -127,12 +143,16 @@ class C10:
             return state.split_known(out)
         return body
 
+    _replay_children = None
+
     def replay_case(self, sc, state):
-        ch = Children(self.hashseeds['quick'])
-        try:
-            return self.body_with(ch)(sc, state)
-        finally:
-            ch.close()
+        # one set of child interpreters for the whole replaying process, so that a `kind: sequence` replay file
+        # rebuilds the same interpreter histories as the shard that found the failure
+        if C10._replay_children is None:
+            import atexit
+            C10._replay_children = Children(self.hashseeds['quick'])
+            atexit.register(C10._replay_children.close)
+        return self.body_with(C10._replay_children)(sc, state)
 
     def run_shard(self, state, tier, seed, shard, nshards, cases=None):
         k = len(self.hashseeds[tier])
